@@ -1781,7 +1781,10 @@ class LoopExpression(Expression):
             items = list(obj.items())
             return iter(items), len(items)
         if isinstance(obj, range):
-            return iter(obj), len(obj)
+            try:
+                return iter(obj), len(obj)
+            except OverflowError as err:  # longer than sys.maxsize
+                raise LiquidTypeError("range is too large", token=self.token) from err
         if isinstance(obj, Sequence):
             return iter(obj), len(obj)
 
